@@ -31,6 +31,10 @@ SetB == {Bin(op, l, r) : op \in BinOps, l \in Leaves, r \in Leaves}
 SetC == {Bin(op, l, r) : op \in BinOps, l \in Flagged(Small5), r \in Flagged(Small5)}
 SetD(S) == {Bin(o2, Bin(o1, a, b), c) : o1 \in BinOps, o2 \in BinOps, a \in S, b \in S, c \in S}
       \cup {Bin(o2, a, Bin(o1, b, c)) : o1 \in BinOps, o2 \in BinOps, a \in S, b \in S, c \in S}
+(* a flagged parenthesised operation as the left or the right operand of another operation: -(a + b) * c, c - !(a == b) *)
+E2 == { N(7,"dec",1), Id("cb","") }
+SetE == {Bin(o2, Fac(f[1], f[2], Par(Bin(o1, a, b))), c) : o1 \in {"+", "*", "==", "&&"}, o2 \in BinOps, f \in Flags \ {<<FALSE,FALSE>>}, a \in E2, b \in E2, c \in Small3}
+   \cup {Bin(o2, c, Fac(f[1], f[2], Par(Bin(o1, a, b)))) : o1 \in {"+", "*", "==", "&&"}, o2 \in BinOps, f \in Flags \ {<<FALSE,FALSE>>}, a \in E2, b \in E2, c \in Small3}
 StrLeaves == { Id("sa",""), Id("sb",""), Lit(<<97, 98>>), Lit(<<>>), Lit(<<104, 105, 32, 49, 33>>), Lit(<<97, 163, 98>>), Lit(<<8593, 8592>>),
                [k |-> "istr", parts |-> <<[lit |-> <<120>>], [ref |-> "sa"], [lit |-> <<121>>]>>],
                [k |-> "istr", parts |-> <<[ref |-> "ca"], [ref |-> "sb"]>>],
